@@ -207,4 +207,10 @@ theorem c05_level_type_sequence :
     ((Gen.Json.enumTables.lookup "IEC61360_LEVEL_TYPES").getD []).map (·.2) =
       ((xsdGroups.lookup "levelType").getD []).map (·.name) := by decide
 
+/-- **The JSON text the writer produces is pure ASCII** (regenerated on every run): json_serialization.py leaves `ensure_ascii`
+    at `json`'s default - it never passes, sets or defaults it -, so every character outside ASCII is written as a `\\uXXXX`
+    escape and the file is the same JSON document in whatever ASCII-compatible encoding the caller's text stream uses (and
+    a valid UTF-8 interchange document).  Seeded change C05-r8-1 (`kwargs.setdefault("ensure_ascii", False)`) fails this. -/
+theorem c05_json_text_is_ascii : Gen.Dispatch.jsonEnsureAsciiOverrides = [] := by decide
+
 end Basyx.C05
